@@ -1204,6 +1204,46 @@ def run_schedule(item):
             pass
 
 
+def run_overlap(item):
+    """the previous search thread is still alive after its `bestmove` (held at `postbest`) while the GUI - which has
+    seen the bestmove and may therefore go on - starts the next search and stops it: the stop must reach the
+    running search whatever the old thread does on its way out"""
+    fen, ctl, delay = item
+    os.mkfifo(ctl)
+    s = Session(env={"VERIF_HOLD": "postbest:-1:-1", "VERIF_CTL": ctl})
+    obs = {}
+    try:
+        s.send(f"position {fen}")
+        s.send("go depth 2")
+        got, st = s.read_until(lambda l: l.startswith("info string vhold"), 20.0)
+        if st != "match":
+            return {"held": False}, got
+        obs["held"] = True
+        obs["first_bestmove"] = any(l.startswith("bestmove") for l in got)
+        s.send("go infinite")
+        time.sleep(delay)
+        s.send("stop")
+        s.send("isready")
+        g1, st1 = s.read_until(lambda l: l == "readyok", 3.0)
+        obs["answered"] = st1 == "match"
+        with open(ctl, "w") as f:
+            f.write("go\n")
+        g2, st2 = wait_bestmove(s, 6.0)
+        obs["second_bestmove"] = st2 == "match" or any(l.startswith("bestmove") for l in g1)
+        if not obs["second_bestmove"]:
+            s.send("stop")
+            g3, st3 = wait_bestmove(s, 6.0)
+            obs["second_stop_needed"] = st3 == "match"
+        obs["crash"] = crash_line(s)
+        return obs, got + g1 + g2
+    finally:
+        s.kill()
+        try:
+            os.remove(ctl)
+        except OSError:
+            pass
+
+
 def run_nosearch_stop(_):
     """`stop` with no search ever started, and `stop` after a search that finished by itself"""
     out = {}
@@ -1292,6 +1332,21 @@ def check_C12(ctx):
                                                 "lines": {"stop_before_any_search": ["stop", "isready"], "stop_after_isready": ["isready", "stop", "isready"],
                                                           "stop_after_finished_search": ["position startpos", "go depth 2", "<bestmove>", "stop", "isready"],
                                                           "immediate_stop_honoured": ["position startpos", "go infinite", "stop"]}[kname]})
+    # previous search thread still alive after its bestmove while the next search is started and stopped
+    ov_items = [(f, os.path.join(BUILD, f"ctl_ov_{os.getpid()}_{i}"), d) for i, (f, d) in enumerate(
+        [(START_FEN, 0.0), (START_FEN, 0.05), (KIWI_FEN, 0.0), (KIWI_FEN, 0.02), ("8/2p5/3p4/KP5r/1R3p1k/8/4P1P1/8 w - - 0 1", 0.01), (START_FEN, 0.2)])]
+    for (f, ctl, d), (obs, out) in zip(ov_items, parallel_map(run_overlap, ov_items, workers=6)):
+        ctx.case(f"overlap|{f}|{d}")
+        ctx.bump("schedule:overlap_previous_thread_alive")
+        if not obs.get("held"):
+            ctx.bump("overlap_not_held")
+            continue
+        lines = [f"position {f}", "go depth 2", "<hold the search thread at postbest, after its bestmove>", "go infinite", f"<sleep {d}s>", "stop", "isready", "<release>"]
+        if not obs.get("answered"):
+            ctx.violation(f"overlap-block:{f}:{d}", {"kind": "schedule", "lines": lines, "what": "command thread blocked while the previous search thread was still alive", "observed": obs})
+        elif not obs.get("second_bestmove"):
+            ctx.violation(f"overlap-lost:{f}:{d}", {"kind": "schedule", "lines": lines, "what": "stop lost: the search started while the previous search thread was still exiting never ended"
+                                                    + (" (a second stop ended it)" if obs.get("second_stop_needed") else "") + " " + obs.get("crash", ""), "observed": obs})
     # static access table (T1): conflicting unsynchronised accesses between the search thread and stop/isready
     shared = ctx.prep["facts"]["shared"]
     conflicts = shared_conflicts(shared)
@@ -2469,6 +2524,13 @@ def run_script(script):
             if not s.send(line):
                 return False, "engine died: " + crash_line(s), sent
             is_go = (line.startswith("go") if isinstance(line, str) else line.startswith(b"go"))
+            if line in ("isready", b"isready"):
+                # answered by exactly one `readyok`: consume it now, so that the synchronisation of a later `go`
+                # cannot be satisfied by this stale answer
+                g0, st0 = s.read_until(lambda l: l == "readyok", 10.0)
+                if st0 != "match":
+                    time.sleep(0.1)
+                    return False, "`isready` was not answered: " + (crash_line(s) or st0), sent
             if is_go:
                 s.send("isready")
                 got, st = s.read_until(lambda l: l == "readyok", 6.0)
@@ -2484,9 +2546,19 @@ def run_script(script):
                     s.send("stop")
                     sent.append("stop")
                     g2, st2 = wait_bestmove(s, 15.0)
+                    # every exact `isready` sent during the search is answered by one `readyok`, which may arrive
+                    # after the bestmove: consume them, or the next `go` would be synchronised on a stale one and
+                    # the script would start a second search while this one is still running (the script's fault)
+                    owed = sum(1 for d in during if d == "isready") - sum(1 for l in g2 if l == "readyok")
+                    while st2 == "match" and owed > 0:
+                        g3, st3 = s.read_until(lambda l: l == "readyok", 5.0)
+                        if st3 != "match":
+                            time.sleep(0.1)
+                            return False, "an `isready` sent during a search was never answered: " + (crash_line(s) or st3), sent
+                        owed -= 1
                     if st2 != "match":
                         time.sleep(0.1)
-                        return False, f"search started by `{line}` never ended after stop: " + (crash_line(s) or st2), sent
+                        return False, f"search started by `{line}` never ended after stop: " + (crash_line(s) or st2), sent + ["--- engine output tail ---"] + [x for x in s.lines if not x.startswith("info currmove")][-25:]
         s.send("isready")
         got, st = s.read_until(lambda l: l == "readyok", 20.0)
         if st != "match":
@@ -2558,7 +2630,8 @@ def check_C17(ctx):
         if not ok:
             small = shrink_script(sc) if len(ctx.violations) < 3 else sc
             key = "uci-session:" + "|".join((l if isinstance(l, str) else l.hex()) for l, _ in small)
-            ctx.violation(key, {"kind": "history", "lines": [(l if isinstance(l, str) else "hex:" + l.hex()) for l, _ in small], "what": why})
+            ctx.violation(key, {"kind": "history", "lines": [(l if isinstance(l, str) else "hex:" + l.hex()) for l, _ in small], "what": why,
+                                "transcript_of_the_original_session": [str(x)[:200] for x in sent][-60:]})
         if len(ctx.samples) < 3:
             ctx.sample({"script": sent[:10], "ok": ok})
 
@@ -2791,6 +2864,10 @@ def run(ctx):
         if changed:
             ctx.escalated = True
             ctx.notes.append("T3 escalation: changed functions " + ",".join(changed[:12]))
+    if os.environ.get("VERIF_FORCE_ESCALATE") == "1":
+        # self-test of the machinery: run the enlarged quick tier although no mirrored function changed
+        ctx.escalated = True
+        ctx.notes.append("escalation forced by VERIF_FORCE_ESCALATE")
     rc, out = ctx.prep["lean"]["mdrv"]
     if rc != 0:
         ctx.notes.append("model driver failed to build against the regenerated facts")
